@@ -364,6 +364,12 @@ fn judge(cx: &Ctx, rep: &mut Reporter, p: &Program, f: ProgFn, steps: &[Step], d
         if rf.wake_fired {
             rep.count("c24_wake_fired");
         }
+        if rf.loop_defer_multi {
+            rep.count("c24_loop_defer_avail_multi_tick");
+        }
+        if rf.loop_lazy_held {
+            rep.count("c24_loop_lazy_held_at_stop");
+        }
     }
 
     // --- reference equality of every sink
@@ -556,6 +562,9 @@ pub fn main(gen_seed: u64, gen_n: usize, shard: usize, programs: &[(usize, ProgF
             continue;
         }
         rep.count(&format!("programs_{}", p.mode.s()));
+        if p.has_loop() {
+            rep.count("programs_with_root_loop");
+        }
         prog_list.push(json!({"id": p.id, "mode": p.mode.s(), "nodes": p.nodes.len(), "depth": p.depth}));
         for nd in &p.nodes {
             *ast_cover.entry(pgen::cover_key(&nd.op)).or_default() += 1;
